@@ -544,6 +544,100 @@ impl<T: ?Sized + Send> SendProbe<T> {
     const IS_SEND: bool = true;
 }
 
+/// "No emission is ever dispatched to a recorder after the borrow that installed it has ended" is, for the guard form,
+/// a contract the compiler enforces: a `LocalRecorderGuard<'a>` cannot be kept for longer than the `&'a dyn Recorder` it
+/// was made from. Programs that try are compiled against the metrics crate as built for this harness and must be
+/// rejected with a lifetime error; controls of the same shape must compile.
+fn guard_lifetime_part(ctx: &Ctx, res: &mut PartResult) {
+    res.engine = "compile-time probes: programs that keep a local-recorder guard for longer than the recorder must be rejected (rustc, borrow checker), controls accepted".into();
+    let dir = ctx.run_dir().join("c01-guard-lifetime-probes");
+    let _ = std::fs::remove_dir_all(&dir);
+    std::fs::create_dir_all(&dir).unwrap();
+    let deps = std::env::current_exe().ok().and_then(|e| e.parent().map(|p| p.join("deps")));
+    let deps = match deps {
+        Some(d) if d.is_dir() => d,
+        _ => {
+            res.notes.push("the harness's deps directory was not found next to the executable: probes not run".into());
+            res.exhaustive = false;
+            return;
+        }
+    };
+    // the metrics rlib this very harness was linked against: the newest one
+    let mut rlibs: Vec<(std::time::SystemTime, std::path::PathBuf)> = std::fs::read_dir(&deps)
+        .map(|rd| rd.flatten().filter(|e| { let n = e.file_name().to_string_lossy().to_string(); n.starts_with("libmetrics-") && n.ends_with(".rlib") }).filter_map(|e| e.metadata().ok().and_then(|m| m.modified().ok()).map(|t| (t, e.path()))).collect())
+        .unwrap_or_default();
+    rlibs.sort();
+    let rlib = match rlibs.pop() {
+        Some((_, p)) => p,
+        None => {
+            res.notes.push("no libmetrics-*.rlib in the harness's deps directory: probes not run".into());
+            res.exhaustive = false;
+            return;
+        }
+    };
+    let header = "#![allow(dead_code, unused)]\nuse metrics::{set_default_local_recorder, with_local_recorder, LocalRecorderGuard, NoopRecorder, Recorder};\n";
+    let probes: Vec<(&str, bool, &str)> = vec![
+        ("guard-outlives-recorder", false, "pub fn f() { let guard; { let rec = NoopRecorder; guard = set_default_local_recorder(&rec); } metrics::counter!(\"x\").increment(1); drop(guard); }"),
+        ("guard-control", true, "pub fn f() { let rec = NoopRecorder; let guard = set_default_local_recorder(&rec); metrics::counter!(\"x\").increment(1); drop(guard); }"),
+        ("guard-returned-past-recorder", false, "pub fn f() -> LocalRecorderGuard<'static> { let rec = NoopRecorder; set_default_local_recorder(&rec) }"),
+        ("guard-returned-control", true, "pub fn f<'a>(rec: &'a dyn Recorder) -> LocalRecorderGuard<'a> { set_default_local_recorder(rec) }"),
+        ("guard-lengthened", false, "pub fn f<'a>(g: LocalRecorderGuard<'a>) -> LocalRecorderGuard<'static> { g }"),
+        ("guard-stored-past-recorder", false, "pub fn f(v: &mut Vec<LocalRecorderGuard<'static>>) { let rec = NoopRecorder; v.push(set_default_local_recorder(&rec)); }"),
+        ("recorder-moved-while-guard-alive", false, "pub fn f() { let rec = NoopRecorder; let guard = set_default_local_recorder(&rec); let moved = rec; drop(guard); drop(moved); }"),
+        ("closure-control", true, "pub fn f() -> u32 { let rec = NoopRecorder; with_local_recorder(&rec, || { metrics::counter!(\"x\").increment(1); 7 }) }"),
+    ];
+    let mut outcomes = std::collections::BTreeSet::new();
+    for (name, must_compile, body) in &probes {
+        res.executions += 1;
+        res.transitions += 1;
+        let file = dir.join(format!("{}.rs", name));
+        std::fs::write(&file, format!("{}{}\n", header, body)).unwrap();
+        let out = std::process::Command::new("rustc")
+            .current_dir(ctx.root.join("harness"))
+            .args(["--edition", "2021", "--crate-type", "lib", "--emit=metadata", "--error-format=short", "-A", "warnings", "-L"])
+            .arg(format!("dependency={}", deps.display()))
+            .arg("--extern")
+            .arg(format!("metrics={}", rlib.display()))
+            .arg("-o")
+            .arg(dir.join(format!("{}.rmeta", name)))
+            .arg(&file)
+            .output();
+        let out = match out {
+            Ok(o) => o,
+            Err(e) => {
+                res.notes.push(format!("rustc could not be started: {}", e));
+                res.exhaustive = false;
+                return;
+            }
+        };
+        let err = String::from_utf8_lossy(&out.stderr).to_string();
+        let lifetime_error = ["E0515", "E0597", "E0521", "E0716", "E0505", "E0499", "E0502", "E0506", "E0310", "E0621", "lifetime may not live long enough", "does not live long enough"].iter().any(|m| err.contains(m));
+        let other_error = ["E0432", "E0433", "E0425", "E0599", "E0308", "E0277", "E0282", "E0283", "E0061", "E0412", "E0460", "E0463", "E0514", "E0786"].iter().any(|m| err.contains(m));
+        outcomes.insert((out.status.success(), lifetime_error));
+        let cfg = json!({"lifetime_probe": name});
+        if *must_compile {
+            if !out.status.success() {
+                if lifetime_error && !other_error {
+                    res.violation("local-scope-within-its-borrow-rejected", format!("control program {:?} must compile: {}\n{}", name, body, err.chars().take(600).collect::<String>()), cfg);
+                } else {
+                    res.notes.push(format!("control probe {:?} does not compile for a reason other than lifetimes (probe machinery or API changed): {}", name, err.chars().take(400).collect::<String>()));
+                    res.exhaustive = false;
+                }
+            }
+        } else if out.status.success() {
+            res.violation("local-recorder-guard-outlives-its-recorder", format!("this program compiles; in it a local-recorder guard (and with it the thread's recorder pointer) is still in place after the recorder it was made from is gone, so a later emission is dispatched to a recorder whose borrow has ended: {}", body), cfg);
+        } else if !lifetime_error || other_error {
+            res.notes.push(format!("escape probe {:?} is rejected, but not (only) by a lifetime error: {}", name, err.chars().take(400).collect::<String>()));
+            res.exhaustive = false;
+        }
+    }
+    let _ = std::fs::remove_dir_all(&dir);
+    res.states = probes.len() as u64;
+    res.distinct_outcomes = outcomes.len() as u64;
+    res.bound = json!({"programs": probes.len(), "must_be_rejected": probes.iter().filter(|p| !p.1).count(), "controls": probes.iter().filter(|p| p.1).count()});
+    res.sample(json!({"rejected": probes[0].2, "accepted": probes[1].2}));
+}
+
 fn threads_part(res: &mut PartResult) {
     res.engine = "E3 all pairs of short scope programs on two threads in lock-step".into();
     // a guard restores the slot of whichever thread drops it: only its being !Send keeps a recorder installed locally on
@@ -821,6 +915,7 @@ fn parts(ctx: &Ctx) -> Vec<PartSpec> {
         PartSpec::new("programs-with-global", json!({"p": "prog", "global": true, "recs": 2, "steps": steps, "nest": nest})).budget(b),
         PartSpec::new("programs-3recorders-no-global", json!({"p": "prog", "global": false, "recs": 3, "steps": if ctx.quick() { 5 } else { 7 }, "nest": 2})).budget(b),
         PartSpec::new("two-threads", json!({"p": "threads"})),
+        PartSpec::new("guard-lifetime-probes", json!({"p": "lifetimes"})),
         PartSpec::new("global-installed-mid-history", json!({"p": "install", "steps": if ctx.quick() { 3 } else { 4 }})),
         PartSpec::new("macro-forms", json!({"p": "macros"})),
         // E2: the global cell's own state machine while emissions look it up (real cell.rs under loom)
@@ -835,6 +930,7 @@ fn run(ctx: &Ctx, spec: &PartSpec) -> PartResult {
     match spec.arg["p"].as_str().unwrap_or("") {
         "prog" => programs_part(ctx, &mut res, spec.arg["global"].as_bool().unwrap_or(false), spec.arg["recs"].as_u64().unwrap_or(2) as usize, spec.arg["steps"].as_u64().unwrap_or(6) as usize, spec.arg["nest"].as_u64().unwrap_or(2) as usize),
         "threads" => threads_part(&mut res),
+        "lifetimes" => guard_lifetime_part(ctx, &mut res),
         "loom" => vcore::loompart::run_with_budget(spec.arg["loom"].as_str().unwrap_or(""), spec.arg["pb"].as_u64(), ctx.budget_s, &mut res),
         "install" => global_install_part(&mut res, spec.arg["steps"].as_u64().unwrap_or(3) as usize),
         _ => macro_forms(&mut res),
@@ -846,7 +942,7 @@ fn main() {
     driver::main(CheckDef {
         prop: "C01",
         level: "model_checking",
-        rule: "every well-formed program of at most N steps over {g = set_default_local_recorder(r), drop(g) of any live guard in any order, mem::forget(g), with_local_recorder(r, || ..) entered / left normally / left by a caught panic} with 2-3 recorder doubles, closure nesting <= 2-3, at most 3 guards, run on the real thread-local recorder; after every step a counter!, gauge!, histogram! and describe_counter! probe must each reach exactly the innermost live scope's recorder (else the global, else nobody) exactly once and never a recorder none of whose borrows is alive; once without and once with a global recorder (separate processes); all pairs of <= 3-step programs on two threads in lock-step; a catalogue of every macro arm (15 forms x 3 kinds + 4 describe forms x 3) with independently written expected name/labels/level/target/module path/unit/description; distinct = distinct (signature, step) / program shapes; describe forms with an empty description (with and without a unit) and an empty metric name",
+        rule: "every well-formed program of at most N steps over {g = set_default_local_recorder(r), drop(g) of any live guard in any order, mem::forget(g), with_local_recorder(r, || ..) entered / left normally / left by a caught panic} with 2-3 recorder doubles, closure nesting <= 2-3, at most 3 guards, run on the real thread-local recorder; after every step a counter!, gauge!, histogram! and describe_counter! probe must each reach exactly the innermost live scope's recorder (else the global, else nobody) exactly once and never a recorder none of whose borrows is alive; once without and once with a global recorder (separate processes); all pairs of <= 3-step programs on two threads in lock-step; a catalogue of every macro arm (15 forms x 3 kinds + 4 describe forms x 3) with independently written expected name/labels/level/target/module path/unit/description; distinct = distinct (signature, step) / program shapes; describe forms with an empty description (with and without a unit) and an empty metric name; compile-time probes against the metrics crate as built for the harness: 5 programs that keep a LocalRecorderGuard for longer than its recorder (assigned to an outer binding, returned, lengthened to 'static, stored, recorder moved away) must be rejected with a lifetime error, 3 controls must compile",
         assumptions: &["recorder doubles are leaked, so a dispatch to a recorder whose borrow ended is observed instead of being undefined behaviour", "a panic leaving a closure drops the guards created inside it (as locals) innermost first; on normal exit such guards are considered moved out"],
         parts,
         run,
